@@ -1,3 +1,4 @@
+import errno
 import importlib.util
 import os
 import stat
@@ -80,6 +81,11 @@ class BaseFiles(Generic[Interface]):
             # NotADirectoryError: a component of the path is a regular file
             # ValueError: embedded null byte, or a name that can not be encoded
             return None, False
+        except OSError as exc:
+            # a name longer than the file system allows can not exist either
+            if exc.errno == errno.ENAMETOOLONG:
+                return None, False
+            raise
 
     def if_none_match(self, etag: str, if_none_match: str) -> bool:
         if not if_none_match:
